@@ -18,4 +18,6 @@ const RedisClusterSlots = 16384
 
 const ReqClusterNodes = "*2\r\n$7\r\ncluster\r\n$5\r\nnodes\r\n"
 
+const ReqAsking = "*1\r\n$6\r\nasking\r\n"
+
 const TitleSlowLog = "[SLOWLOG]"
